@@ -2828,6 +2828,14 @@ fn base64_decode(input: &[u8]) -> Result<Vec<u8>, &'static str> {
     return Err("Base64 literal mixes the RFC 4648 base64 and base64url alphabets");
   }
 
+  // Padding may only trail the data (RFC 4648 3.2/3.3): a `=` followed by
+  // anything else, such as a second padded block, is not a base64 encoding.
+  if let Some(first_pad) = input.iter().position(|&b| b == b'=') {
+    if input[first_pad..].iter().any(|&b| b != b'=') {
+      return Err("Invalid base64 encoding");
+    }
+  }
+
   // The two alphabets differ only in `+/` versus `-_`, so a literal that uses
   // neither pair decodes identically under either one.
   let encoding = match (uses_classic, input.contains(&b'=')) {
